@@ -17,6 +17,7 @@
  *   push v | pop | reg | thr T | protect k n | unprotect k | retire n | scan
  */
 #include "mpmc_fifo.h"
+#include <sys/mman.h>
 #include "thr_common.h"
 
 #define HPK MPMC_HAZARD_COUNT
@@ -25,7 +26,14 @@
 
 static _Atomic(hazard_pointer_thread_record_t*) hp_head;
 static mpmc_fifo_t q;
-static mpmc_fifo_node_t arena[MAXN];
+/* nodes live at arena_base + i * arena_stride: by default a dense array; with the scenario
+ * parameter `spread 1` the stride is 0x90000000 bytes inside one sparse mapping, so that the
+ * addresses of different nodes differ by >= 2 GiB modulo 4 GiB (address patterns that matter
+ * to the pointer comparator of hazard_pointer_scan) */
+static char* arena_base;
+static size_t arena_stride = sizeof(mpmc_fifo_node_t);
+static mpmc_fifo_node_t arena_dense[MAXN];
+#define ARENA(i) ((mpmc_fifo_node_t*)(arena_base + (size_t)(i) * arena_stride))
 static char node_names[MAXN][16];
 static int nnodes;
 static int free_stack[MAXN + 1]; /* [0] = count, then indices, top of stack last */
@@ -75,7 +83,7 @@ static void node_gc(void* gc_data, hazard_node_t* h) {
   if (gc_free)
     free(n); /* intercepted (vrt_watch_free): node becomes dead */
   else
-    free_stack[++free_stack[0]] = (int)(n - arena);
+    free_stack[++free_stack[0]] = (int)(((char*)n - arena_base) / arena_stride);
 }
 static void render_pool(const void* base, char* out, size_t cap) {
   const int* st = base;
@@ -129,13 +137,22 @@ static void drv_setup(void) {
   for (int t = 0; t < t_nthreads; t++)
     for (int i = 0; i < t_nops[t]; i++)
       if (!strcmp(t_ops[t][i].op, "thr")) big_plist = 1;
+  arena_base = (char*)arena_dense;
+  if ((s = t_param("spread")) && atoi(s)) {
+    arena_stride = 0x90000000UL;
+    arena_base = mmap(NULL, arena_stride * MAXN, PROT_READ | PROT_WRITE, MAP_PRIVATE | MAP_ANONYMOUS | MAP_NORESERVE, -1, 0);
+    if (arena_base == MAP_FAILED) {
+      fprintf(stderr, "spread arena: mmap failed\n");
+      exit(65);
+    }
+  }
   snprintf(buf, sizeof buf, "%s", (s = t_param("nodes")) ? s : "");
   for (char* t = strtok(buf, " "); t; t = strtok(NULL, " ")) {
     snprintf(node_names[nnodes], 16, "%s", t);
-    arena[nnodes].hazard.gc_function = node_gc;
+    ARENA(nnodes)->hazard.gc_function = node_gc;
     nnodes++;
   }
-  mpmc_fifo_init(&q, &arena[node_idx((s = t_param("dummy")) ? s : "n0")]);
+  mpmc_fifo_init(&q, ARENA(node_idx((s = t_param("dummy")) ? s : "n0")));
   snprintf(buf, sizeof buf, "%s", (s = t_param("pool")) ? s : "");
   {
     int tmp[MAXN], k = 0;
@@ -152,8 +169,8 @@ static void drv_setup(void) {
     for (int i = 0; i < t_nops[t]; i++)
       if (!strcmp(t_ops[t][i].op, "push")) val_ptr(t_ops[t][i].a1);
   for (int i = 0; i < nnodes; i++) {
-    vrt_reg_obj(node_names[i], &arena[i], sizeof arena[i], node_fields, 2);
-    vrt_watch_free(&arena[i]);
+    vrt_reg_obj(node_names[i], ARENA(i), sizeof(mpmc_fifo_node_t), node_fields, 2);
+    vrt_watch_free(ARENA(i));
   }
   for (int t = 0; t < t_nthreads; t++) {
     char nm[16];
@@ -176,7 +193,7 @@ static void do_push(int tid, const char* v) {
     return;
   }
   vrt_api("\"f\":\"t%d\",\"ph\":\"call\",\"op\":\"push\",\"v\":\"%s\"", tid, v);
-  mpmc_fifo_node_t* n = &arena[free_stack[free_stack[0]--]];
+  mpmc_fifo_node_t* n = ARENA(free_stack[free_stack[0]--]);
   n->value = val_ptr(v);
   mpmc_fifo_push(recs[tid], &q, n);
   vrt_api("\"f\":\"t%d\",\"ph\":\"ret\",\"op\":\"push\",\"v\":\"%s\"", tid, v);
@@ -199,11 +216,11 @@ static void drv_op(int tid, const char* op, const char* a1, const char* a2, cons
   } else if (!strcmp(op, "thr")) {
     do_thr(tid, (size_t)atol(a1));
   } else if (!strcmp(op, "protect")) {
-    hazard_pointer_using(recs[tid], &arena[node_idx(a2)].hazard, (size_t)atoi(a1));
+    hazard_pointer_using(recs[tid], &ARENA(node_idx(a2))->hazard, (size_t)atoi(a1));
   } else if (!strcmp(op, "unprotect")) {
     hazard_pointer_done_using(recs[tid], (size_t)atoi(a1));
   } else if (!strcmp(op, "retire")) {
-    hazard_pointer_free(recs[tid], &arena[node_idx(a1)].hazard);
+    hazard_pointer_free(recs[tid], &ARENA(node_idx(a1))->hazard);
   } else if (!strcmp(op, "scan")) {
     hazard_pointer_scan(recs[tid]);
   } else {
